@@ -9,6 +9,8 @@ Near == <<-30, 7, 25>>          \* longitudes relative to the centre
 Wide == <<-80, 5, 60>>
 MercShape   == Sh("", None, Wide, <<-600, -123, 350, 710>>)
 TmShape     == Sh("", None, Near, <<-600, 120, 550, 780>>)
+\* ... and with a latitude of origin in either hemisphere (jointly with every k_0, x_0, y_0, lon_0 of the lattice)
+TmShapes    == {TmShape, Sh("lat_0=49", None, Near, <<400, 490, 600>>), Sh("lat_0=-33", None, Near, <<-450, -330, -100>>)}
 LccShapes   == {Lcc(None, 33, 45, Wide, <<310, 395, 450>>),
                 Lcc(None, 57, None, Wide, <<490, 575, 630>>),        \* one parallel
                 Lcc(None, 57, 57, Wide, <<490, 575, 630>>),          \* ... and its two-parallel spelling
@@ -73,7 +75,7 @@ EllSweep == UNION {{Full(ps[1], ps[2], Named(n)) : ps \in OneShape} \cup {Bare(p
 
 Core(Ls, Es) ==
          Plain("merc", {MercShape}, Ls, Es) \cup Plain("webmerc", {MercShape}, Ls, Es)
-    \cup Plain("tmerc", {TmShape}, Ls, Es) \cup Plain("btmerc", {TmShape}, Ls, Es)
+    \cup Plain("tmerc", TmShapes, Ls, Es) \cup Plain("btmerc", TmShapes, Ls, Es)
     \cup Plain("lcc", LccShapes, Ls, Es) \cup Plain("laea", LaeaShapes, Ls, Es)
     \cup Plain("omerc", OmercShapes, Ls, Es) \cup Plain("somerc", SomercShapes, Ls, Es)
 
